@@ -13,6 +13,20 @@ Theorem C09_counters_and_identity_over_any_history : forall ops e since,
 Proof. exact history_counters. Qed.
 Print Assumptions C09_counters_and_identity_over_any_history.
 
+(* the same on the WHOLE input domain of encode(): any frame sizes, packets with empty or absent payload included (they open frames
+   and consume counters without adding a message) - only "one version 1..255 per batch" is required *)
+Theorem C09_counters_and_identity_any_batches : forall ops e since,
+  enc_ok e -> since_ok e since -> Forall op_ok_any ops ->
+  let r := fold_left estep ops (e, since) in enc_ok (fst r) /\ since_ok (fst r) (snd r).
+Proof. exact history_counters_any. Qed.
+Print Assumptions C09_counters_and_identity_any_batches.
+
+(* every frame of a batch carries the batch's protocol version and a message type in range (which C09_wire_header puts on the wire) *)
+Theorem C09_frames_carry_batch_version : forall cap v b, 1 <= v < 256 -> Forall (fun p => p_ver p = v) b ->
+  Forall (fun f => fr_ver f = v /\ 0 <= fr_type f < 256) (enc_struct cap b).
+Proof. exact enc_struct_tagged. Qed.
+Print Assumptions C09_frames_carry_batch_version.
+
 Theorem C09_initial_state : enc_ok enc0 /\ since_ok enc0 [].
 Proof. split; [unfold enc_ok; cbn; lia|]. split; [reflexivity|]. intros i Hi. cbn in Hi. lia. Qed.
 Print Assumptions C09_initial_state.
